@@ -9,7 +9,7 @@ LEVEL = 'exploration'
 RULE = ('case = list of 0-8 (non-empty key, value) text pairs (alphabet rich in "=&+%; #" space, NUL, non-ASCII, repeated keys by '
         'drawing keys from a small per-case pool) + an encoding spelling per character (harness encoder: raw if unreserved, "+" or %20 '
         'for space, %XX upper/lower hex, optionally over-encoding unreserved characters) used as QUERY_STRING and as an '
-        'application/x-www-form-urlencoded POST body (Content-Length or chunked, delivered in full or in short reads of 1-40 bytes; Content-Type with and without a charset parameter; every request is served twice on one application and the handler mutates what it got in between; before the first access to the form the handler may have read all / part of request.body, moved it to its end, or probed request.json; a Request.copy() taken after the form was read must decode the same pairs). Plus two threads decoding a 4-pair and a 300 / 1100-field query string or form at the same time under every single-preemption schedule of the small one (deterministic scheduler. Oracle: Request.query / Request.forms == expected map '
+        'application/x-www-form-urlencoded POST body (Content-Length or chunked, delivered in full or in short reads of 1-40 bytes; Content-Type with and without a charset parameter; every request is served twice on one application and the handler mutates what it got in between; before the first access to the form the handler may have read all / part of request.body, moved it to its end, or probed request.json; a Request.copy() taken after the form was read must decode the same pairs; wsgi.input = fragmenting stream, or a real io.BytesIO / io.BufferedReader standing at offset 0 or behind the bytes of an earlier message with a pipelined next request behind the body; the first 1-2 read() calls of wsgi.input may raise a transient error before any byte is consumed while forms / POST / params is first asked for, after which the handler retries through the same or another accessor: the retry delivers the sent pairs or raises again). Plus two threads decoding a 4-pair and a 300 / 1100-field query string or form at the same time under every single-preemption schedule of the small one (deterministic scheduler. Oracle: Request.query / Request.forms == expected map '
         '(single -> str, repeated -> list in submission order), Request.params == {**query, **forms}, parse_qsl() list mode == the pair list. '
         'Totality: parse_qsl(any text) and Request.query on any QUERY_STRING return without raising. Non-trivial = a repeated key, or a key/value '
         'containing one of "=&+%;" / space / non-ASCII / empty value; distinct by case hash.')
@@ -80,10 +80,48 @@ def case_st(draw):
             'pattern': draw(st.one_of(st.just([]), st.lists(st.integers(1, 9), min_size=1, max_size=4), st.lists(st.integers(1, 40), min_size=1, max_size=4))),
             'copy': draw(st.integers(0, 4)) == 0,
             'requery': draw(st.sampled_from([None, None, None, encode_pairs(REQUERY_PAIRS, [0, 1])])),
-            'pre': draw(st.sampled_from([None, None, None, 'read_all', 'seek_end', 'json', ['read', 1], ['read', 7], ['read', 10000]]))}
+            'pre': draw(st.sampled_from([None, None, None, 'read_all', 'seek_end', 'json', ['read', 1], ['read', 7], ['read', 10000]])),
+            'stream': draw(st.sampled_from([None, None, None, 'bytesio', 'bytesio_at_offset', 'bufferedreader_at_offset'])),
+            'fault': draw(st.sampled_from([None] * 5 + [{'n': n_, 'exc': e_, 'first': a_, 'retry': b_} for n_ in (1, 2) for e_ in ('TimeoutError', 'OSError')
+                                                        for a_ in ACCESSORS for b_ in ACCESSORS]))}
 
 
 REQUERY_PAIRS = [('z', '1'), ('k', 'new value'), ('z', '2')]
+ACCESSORS = ('forms', 'POST', 'params')
+PREFIX = b'POST /previous HTTP/1.1\r\nContent-Type: application/x-www-form-urlencoded\r\nContent-Length: 9\r\n\r\nprev=body'
+NEXT = b'POST /next HTTP/1.1\r\nContent-Length: 8\r\n\r\nnext=one'
+
+
+def make_stream(case, wire):
+    """wsgi.input for the bytes `wire`: the fragmenting stream, or a real in-memory / buffered stream as a server that keeps the raw connection
+    bytes in one buffer hands it over (positioned at the first byte of the body, an earlier message in front, the next one behind)."""
+    import io
+    kind = case.get('stream')
+    if not kind:
+        stream = FragStream(wire, case.get('pattern') or [])
+    elif kind == 'bytesio':
+        stream = io.BytesIO(wire + NEXT)
+    else:
+        raw = io.BytesIO(PREFIX + wire + NEXT)
+        stream = raw if kind == 'bytesio_at_offset' else io.BufferedReader(raw)
+        stream.seek(len(PREFIX))
+    if case.get('fault'):
+        stream = FlakyStream(stream, case['fault']['n'], {'TimeoutError': TimeoutError, 'OSError': OSError}[case['fault']['exc']])
+    return stream
+
+
+class FlakyStream:
+    """wsgi.input whose first `failures` read() calls raise a transient error; nothing is consumed by a failed call."""
+
+    def __init__(self, inner, failures, exc):
+        self.inner, self.failures, self.exc, self.raised = inner, failures, exc, 0
+
+    def read(self, n=-1):
+        if self.failures:
+            self.failures -= 1
+            self.raised += 1
+            raise self.exc('transient read failure injected by the harness')
+        return self.inner.read(n)
 
 
 def _plain(d):
@@ -115,6 +153,22 @@ def check_case(ctx, case):
 
     def h():
         rq = app.request
+        fault = case.get('fault')
+        if fault:
+            # the stream fails while the form is first asked for; the handler catches that and asks again, alternating the two accessors.
+            # An attempt may raise again; one that returns must return the sent pairs (compared below, with every other view)
+            for attempt in range(fault['n'] + 2):
+                name = fault['first'] if attempt % 2 == 0 else fault['retry']
+                try:
+                    got = _plain(getattr(rq, name))
+                except Exception:
+                    seen['fault_raised'] = seen.get('fault_raised', 0) + 1
+                    continue
+                seen['retry_' + name] = got
+                break
+            else:
+                seen['gave_up'] = True
+                return 'ok'
         # what happened to the body stream before the form is first asked for (a signature check, a logger, a JSON probe) must not matter
         pre = case.get('pre')
         if pre == 'read_all':
@@ -169,24 +223,36 @@ def check_case(ctx, case):
         if case['chunked']:
             from vlib.encoders import encode_chunked
             wire, _ = encode_chunked(body, [11, 3, 47, 26, 250], [{'upper': bool(case['style'][0] % 2), 'zeros': case['style'][0] % 3}])      # chunk sizes with hex letters in either case
-            env = make_environ(case['method'], '/q', qs=qs, stream=FragStream(wire, case.get('pattern') or []), content_length=None, headers=dict(headers, **{'Transfer-Encoding': ['chunked', 'Chunked', 'CHUNKED', 'gzip, chunked', ' chunked '][case['style'][-1] % 5]}))
+            env = make_environ(case['method'], '/q', qs=qs, stream=make_stream(case, wire), content_length=None, headers=dict(headers, **{'Transfer-Encoding': ['chunked', 'Chunked', 'CHUNKED', 'gzip, chunked', ' chunked '][case['style'][-1] % 5]}))
         else:
             # the form arrives as a socket delivers it: read(n) may return fewer bytes than asked for
-            env = make_environ(case['method'], '/q', qs=qs, stream=FragStream(body, case.get('pattern') or []), content_length=len(body), headers=headers)
+            env = make_environ(case['method'], '/q', qs=qs, stream=make_stream(case, body), content_length=len(body), headers=headers)
         seen.clear()
         r = call_app(app, env)
         if r.escaped is not None or r.code != 200:
             raise CheckFailure(f'request {reqno} with query {qs!r} and form body {body!r} (Content-Type {ctype!r}) answered {r.status!r} {r.errors[-500:]} '
                                f'{fmt_exc(r.escaped) if r.escaped else ""}')
+        if seen.get('gave_up'):
+            ctx.count('every_retry_after_the_read_fault_raised_again')
+            continue
+        for name in ACCESSORS:
+            if 'retry_' + name in seen and seen['retry_' + name] != want[name]:
+                raise CheckFailure(f'request {reqno}: after {seen.get("fault_raised", 0)} failed attempt(s) (wsgi.input.read raised {case["fault"]["exc"]} before any byte was consumed; accessors tried: '
+                                   f'{case["fault"]["first"]}, then {case["fault"]["retry"]}) request.{name} returned without raising but differs for query {qs!r} / body {body!r}:\n got  {seen["retry_" + name]!r}\n want {want[name]!r}')
         for k, w in want.items():
             if seen[k] != w:
-                raise CheckFailure(f'request {reqno}: request.{k} differs for query {qs!r} / body {body!r} (Content-Type {ctype!r}):\n got  {seen[k]!r}\n want {w!r}')
+                raise CheckFailure(f'request {reqno}: request.{k} differs for query {qs!r} / body {body!r} (Content-Type {ctype!r}, wsgi.input kind {case.get("stream") or "fragmenting"}'
+                                   f'{", read fault " + repr(case["fault"]) if case.get("fault") else ""}):\n got  {seen[k]!r}\n want {w!r}')
     if 'charset' in ctype.lower():
         ctx.count('content_type_with_charset')
     if case.get('pre'):
         ctx.count('body_stream_moved_before_first_form_access')
-    if case.get('pattern'):
+    if case.get('pattern') and not case.get('stream'):
         ctx.count('form_body_delivered_in_short_reads')
+    if case.get('stream'):
+        ctx.count('wsgi_input_is_a_real_' + case['stream'])
+    if case.get('fault'):
+        ctx.count('read_fault_on_first_form_access_then_retry')
     allp = q + f
     keys = [k for k, _ in q], [k for k, _ in f]
     rep = any(len(set(ks)) < len(ks) for ks in keys)
@@ -326,6 +392,20 @@ def run(ctx):
             for chunked in (False, True):
                 ctx.guarded(check_case, {'query': [['q', '1']], 'form': [['first', 'one two'], ['k', 'é&='], ['first', '2']], 'style': [0, 1, 2], 'chunked': chunked,
                                          'method': 'POST', 'ctype': 'application/x-www-form-urlencoded', 'pre': pre})
+        # wsgi.input a real in-memory / buffered stream at offset 0 or behind earlier bytes; a read fault on the first form access, then a retry
+        grid_case = {'query': [['q', '1']], 'form': [['name', 'J\u00fcrgen & S\u00f8n'], ['tag', 'x'], ['tag', ''], ['k=&+%', '\u20ac 100%']], 'style': [1, 1, 2],
+                     'method': 'POST', 'ctype': 'application/x-www-form-urlencoded'}
+        for kind in ('bytesio', 'bytesio_at_offset', 'bufferedreader_at_offset'):
+            for chunked in (False, True):
+                for pre in (None, 'read_all', ['read', 7]):
+                    for form in (grid_case['form'], []):
+                        ctx.guarded(check_case, dict(grid_case, form=form, chunked=chunked, stream=kind, pre=pre))
+        for nfail in (1, 2):
+            for first in ACCESSORS:
+                for retry in ACCESSORS:
+                    for chunked in (False, True):
+                        for kind in (None, 'bytesio_at_offset'):
+                            ctx.guarded(check_case, dict(grid_case, chunked=chunked, stream=kind, fault={'n': nfail, 'exc': 'TimeoutError' if nfail == 1 else 'OSError', 'first': first, 'retry': retry}))
     n = 2000 if ctx.tier == 'quick' else 25000
     ctx.hyp(case_st(), check_case, n, label='pairs')
     ctx.hyp(RAW.map(lambda s: {'raw': s}), check_raw, n, label='raw')
